@@ -23,6 +23,9 @@ type c14RS struct {
 	Desired, Current, Ready, Available, Ignored int32
 	Paused, Failed                              string // "", "True", "False"
 	PausedReason                                string
+	// Terminating: the replica set is being deleted by someone (deletionTimestamp set, kept by a finalizer such as
+	// foregroundDeletion while its pods go away): it still exists and still reports pods
+	Terminating bool
 }
 
 type c14Case struct {
@@ -38,7 +41,7 @@ func (k c14Case) String() string { b, _ := json.Marshal(k); return string(b) }
 
 // TestC14StatusFunction: the status function alone, over generated replica-set statuses.
 func TestC14StatusFunction(t *testing.T) {
-	rec := evid.New("TestC14StatusFunction", "C14", "1-3 replica sets of one ExtendedDaemonSet (created by the real reconciler for templates A,B,C) with generated counters (incl. leftover sets with non-zero counters), Canary-Paused / Canary-Failed conditions (absent, True, False, with reasons), which of them is recorded active, pause/freeze/canary annotations (true/false/absent), canary strategy present or absent, status.canary already set or not; one EDS reconcile; oracle: stored status = reference status function of what was read (sums, desired/upToDate/ignored from active and canary set, state, reason, conditions, canary block); non-trivial = >= 2 replica sets with non-zero counters or a canary fact/annotation that changes state/reason/conditions; distinct by case rendering")
+	rec := evid.New("TestC14StatusFunction", "C14", "1-3 replica sets of one ExtendedDaemonSet (created by the real reconciler for templates A,B,C) with generated counters (incl. leftover sets with non-zero counters, and sets that are being deleted under a finalizer), Canary-Paused / Canary-Failed conditions (absent, True, False, with reasons), which of them is recorded active, pause/freeze/canary annotations (true/false/absent), canary strategy present or absent, status.canary already set or not; one EDS reconcile; oracle: stored status = reference status function of what was read (sums, desired/upToDate/ignored from active and canary set, state, reason, conditions, canary block); non-trivial = >= 2 replica sets with non-zero counters or a canary fact/annotation that changes state/reason/conditions; distinct by case rendering")
 	t.Cleanup(func() {
 		if !t.Failed() {
 			rec.Done()
@@ -54,7 +57,8 @@ func TestC14StatusFunction(t *testing.T) {
 			}
 			k.RS = append(k.RS, c14RS{Desired: cnt("desired"), Current: cnt("current"), Ready: cnt("ready"), Available: cnt("available"), Ignored: rapid.SampledFrom([]int32{0, 0, 1}).Draw(rt, fmt.Sprintf("rs%d-ignored", i)),
 				Paused: rapid.SampledFrom(condVals).Draw(rt, fmt.Sprintf("rs%d-paused", i)), Failed: rapid.SampledFrom(condVals).Draw(rt, fmt.Sprintf("rs%d-failed", i)),
-				PausedReason: rapid.SampledFrom([]string{"", "CrashLoopBackOff", "ImagePullBackOff"}).Draw(rt, fmt.Sprintf("rs%d-reason", i))})
+				PausedReason: rapid.SampledFrom([]string{"", "CrashLoopBackOff", "ImagePullBackOff"}).Draw(rt, fmt.Sprintf("rs%d-reason", i)),
+				Terminating:  rapid.IntRange(0, 4).Draw(rt, fmt.Sprintf("rs%d-terminating", i)) == 0})
 		}
 		k.ActiveIdx = rapid.IntRange(0, n-1).Draw(rt, "active")
 		for _, a := range []string{oracle.AnnRollingPaused, oracle.AnnRolloutFrozen, oracle.AnnCanaryPaused, oracle.AnnCanaryUnpaused} {
@@ -102,6 +106,11 @@ func TestC14StatusFunction(t *testing.T) {
 			c.MutateERS("ns1", p.RS[word[i]], func(x *edsv1.ExtendedDaemonSetReplicaSet) {
 				x.Status.Desired, x.Status.Current, x.Status.Ready, x.Status.Available, x.Status.IgnoredUnresponsiveNodes = rs.Desired, rs.Current, rs.Ready, rs.Available, rs.Ignored
 				x.Status.Conditions = nil
+				if rs.Terminating {
+					ts := metav1.NewTime(now.Add(-5 * time.Second))
+					x.DeletionTimestamp = &ts
+					x.Finalizers = []string{"foregroundDeletion"}
+				}
 				if rs.Paused != "" {
 					x.Status.Conditions = append(x.Status.Conditions, edsv1.ExtendedDaemonSetReplicaSetCondition{Type: edsv1.ConditionTypeCanaryPaused, Status: corev1.ConditionStatus(rs.Paused), Reason: rs.PausedReason, LastTransitionTime: metav1.NewTime(now), LastUpdateTime: metav1.NewTime(now)})
 				}
@@ -154,6 +163,12 @@ func TestC14StatusFunction(t *testing.T) {
 		}
 		if k.ActiveIdx != n-1 {
 			classes = append(classes, "active-differs-from-matching")
+		}
+		for _, rs := range k.RS {
+			if rs.Terminating && rs.Desired+rs.Current+rs.Ready+rs.Available > 0 {
+				classes = append(classes, "terminating-set-with-pods")
+				break
+			}
 		}
 		rec.Case(nt, evid.FP(k.String()), classes...)
 		rec.Steps(2)
